@@ -379,4 +379,16 @@ theorem resplit_text (s : Array Cp) (sts : List (List Tok)) (h : lexSplit s = .o
     have hst' : lex defaultCfg (pyStrip (stmtText st)).toArray = .ok (trimWs st) := hstable
     simp only [split, lexSplit, hst', h1, Except.map, List.map_cons, List.map_nil, Function.comp, htext, pyStrip_idem]
 
+/-- `LexStable` as a computation (used by the driver command `lexstable`) -/
+def lexStableB (st : List Tok) : Bool :=
+  match lex defaultCfg (pyStrip (stmtText st)).toArray with
+  | .ok ts => ts == trimWs st
+  | .error _ => false
+
+theorem lexStableB_iff (st : List Tok) : lexStableB st = true ↔ LexStable st := by
+  unfold lexStableB LexStable
+  cases h : lex defaultCfg (pyStrip (stmtText st)).toArray with
+  | error e => simp
+  | ok ts => simp
+
 end Sql
